@@ -9,7 +9,7 @@ from . import oracle as O
 # register sizes and list lengths around natural implementation thresholds (machine words, byte counters, block sizes)
 BIG_NS = [31, 32, 33, 63, 64, 65, 66, 70, 127, 128, 129, 130]
 BIG_LS = [63, 64, 65, 255, 256, 257, 300, 1000, 1023, 1024, 1025, 2049, 4097]
-HUGE_LS = [65535, 65537, 70001]
+HUGE_LS = [65535, 65537, 70001, 131071, 131072, 131073, 262143, 262144, 262145, 300001, 524289, 1048577]
 HUGE_NS = [255, 256, 257, 512, 513]
 
 
